@@ -29,7 +29,9 @@ EXPLANATION = (
     ' '
     'R-C15.8 keyed probes of ProjectSignature._app_sigs occur only inside get_app_sig (the lookup that honours legacy labels).'
     ' '
-    'R-C15.9 (= R-C17.7) a generator of statement batches is iterated once in run_sql.')
+    'R-C15.9 (= R-C17.7) a generator of statement batches is iterated once in run_sql.'
+    ' '
+    'R-C15.11 AppSignature.is_empty() depends on the model signatures only.')
 NOT_DECIDED = (
     'Non-interference with other apps\' tables and rows for every project '
     'layout (prefix table names, shared m2m tables).')
@@ -589,7 +591,38 @@ def r10_deletions_lowered_from_one_snapshot(ctx):
                'snapshot')
 
 
+def r11_app_entry_empty_means_no_models(ctx):
+    """A purge strips the app's models (DeleteApplication) and removes the
+    app's entry when AppSignature.is_empty().  Nothing in the purge path
+    clears anything else, so "empty" must mean "no models" and nothing more:
+    if it also required e.g. no recorded applied_migrations, the entry of a
+    purged migrations-managed app would stay behind and the purge could
+    never pass its own gate."""
+    ctx.rule('R-C15.11')
+    p = ctx.program
+    f = p.cls('signature', 'AppSignature').methods.get('is_empty')
+    if f is None:
+        raise AnalysisError('R-C15.11: AppSignature.is_empty not found')
+    attrs = {x.attr for x in walk_no_nested(f.node)
+             if isinstance(x, ast.Attribute) and
+             isinstance(x.value, ast.Name) and x.value.id == 'self'}
+    extra = sorted(a for a in attrs if 'model_sig' not in a)
+    ctx.counts['R-C15.11 attributes read by AppSignature.is_empty'] = \
+        len(attrs)
+    if attrs and not extra:
+        ctx.ok(f, 'is_empty() looks at the model signatures only')
+    else:
+        ctx.finding(f, None, 'AppSignature.is_empty() also depends on %s: a '
+                    'purged app whose models were all removed but which '
+                    'still carries that state keeps its entry in the stored '
+                    'signature, is reported as deleted again by every later '
+                    'diff, and `evolve --purge --execute` fails its own '
+                    'gate' % ', '.join(extra or ['nothing at all']),
+                    key='is-empty-not-models-only')
+
+
 def run(ctx):
+    r11_app_entry_empty_means_no_models(ctx)
     r10_deletions_lowered_from_one_snapshot(ctx)
     r9_statement_generator_iterated_once(ctx)
     r8_app_lookup_through_accessor(ctx)
